@@ -1,0 +1,100 @@
+//go:build verif
+
+// Contracts for deductive verification (read by /verif/govc). Comment-only: this file adds no code.
+package keeper
+
+//@ store Metadata kv=model/Metadata/value/ key=model_MetadataKey val=github.com/SaoNetwork/sao/x/model/types.Metadata
+//@ accessor get (Keeper) GetMetadata Metadata(dataId)
+//@ accessor set (Keeper) SetMetadata Metadata(metadata.DataId) metadata
+//@ accessor del (Keeper) RemoveMetadata Metadata(dataId)
+//@ store Model kv=model/Model/value/ key=model_ModelKey val=github.com/SaoNetwork/sao/x/model/types.Model
+//@ accessor get (Keeper) GetModel Model(key)
+//@ accessor set (Keeper) SetModel Model(model.Key) model
+//@ accessor del (Keeper) RemoveModel Model(key)
+//@ store ExpiredData kv=model/ExpiredData/value/ key=model_ExpiredDataKey val=github.com/SaoNetwork/sao/x/model/types.ExpiredData
+//@ accessor get (Keeper) GetExpiredData ExpiredData(height)
+//@ accessor set (Keeper) SetExpiredData ExpiredData(expiredData.Height) expiredData
+//@ accessor del (Keeper) RemoveExpiredData ExpiredData(height)
+
+// pure string helpers
+//@ func CommitFromVersion(version) (commit)
+//@   functional
+//@ func Version(commit, height) (v)
+//@   functional
+//@   trusted pure string formatting through bytes.Buffer (not modelled); only its determinism is used
+
+// schedule a data model for deletion at expiredAt
+//@ func (Keeper) setDataExpireBlock(ctx, dataId, expiredAt)
+//@   requires has(ExpiredData, expiredAt) ==> ExpiredData[expiredAt].Height == expiredAt
+//@   modifies ExpiredData[expiredAt]
+//@   ensures [C11.sched.add] has(ExpiredData, expiredAt) && ExpiredData[expiredAt].Height == expiredAt && contains(ExpiredData[expiredAt].Data, dataId)
+//@   ensures [C11.sched.keep] forall x string :: old(has(ExpiredData, expiredAt)) && contains(old(ExpiredData[expiredAt].Data), x) ==> contains(ExpiredData[expiredAt].Data, x)
+//@   ensures [C11.sched.only] forall x string :: contains(ExpiredData[expiredAt].Data, x) ==> x == dataId || (old(has(ExpiredData, expiredAt)) && contains(old(ExpiredData[expiredAt].Data), x))
+
+// unschedule: the loop removes elements in place while ranging over the same backing array, which is outside the verified
+// subset (slices are values there). Contract assumed; validated by exhaustive execution of the real function for all lists
+// up to length 6 over a 3-letter alphabet (bounded stand-in, see /verif/replay/tests/B_removeDataExpireBlock_test.go).
+//@ func (Keeper) removeDataExpireBlock(ctx, dataId, expiredAt)
+//@   trusted bounded: exhaustive lists up to length 6; requires the id to occur at most once (two occurrences make the real code panic or skip)
+//@   requires has(ExpiredData, expiredAt) ==> ExpiredData[expiredAt].Height == expiredAt
+//@   requires [C11.sched.once] has(ExpiredData, expiredAt) ==> forall i int, j int :: 0 <= i && i < j && j < len(ExpiredData[expiredAt].Data) ==> !(ExpiredData[expiredAt].Data[i] == dataId && ExpiredData[expiredAt].Data[j] == dataId)
+//@   modifies ExpiredData[expiredAt]
+//@   ensures [C11.sched.removed] has(ExpiredData, expiredAt) ==> !contains(ExpiredData[expiredAt].Data, dataId) && ExpiredData[expiredAt].Height == expiredAt && old(has(ExpiredData, expiredAt))
+//@   ensures [C11.sched.rest] forall x string :: x != dataId ==> ((has(ExpiredData, expiredAt) && contains(ExpiredData[expiredAt].Data, x)) <==> (old(has(ExpiredData, expiredAt)) && contains(old(ExpiredData[expiredAt].Data), x)))
+
+// ResetMetaDuration recomputes the model's lifetime from its completed shards and reschedules its deletion
+//@ func (Keeper) ResetMetaDuration(ctx, meta)
+//@   requires meta != nil
+//@   requires forall h int :: 0 <= h && h <= MaxUint64 && has(ExpiredData, h) ==> ExpiredData[h].Height == h
+//@   requires [C11.sched.once] has(ExpiredData, u64(meta.CreatedAt + meta.Duration)) ==> forall i int, j int :: 0 <= i && i < j && j < len(ExpiredData[u64(meta.CreatedAt + meta.Duration)].Data)
+//@         ==> !(ExpiredData[u64(meta.CreatedAt + meta.Duration)].Data[i] == meta.DataId && ExpiredData[u64(meta.CreatedAt + meta.Duration)].Data[j] == meta.DataId)
+//@   modifies *meta, ExpiredData
+//@   ensures [C05.reset.frame] meta.DataId == old(meta.DataId) && meta.Owner == old(meta.Owner) && meta.Alias == old(meta.Alias) && meta.GroupId == old(meta.GroupId)
+//@       && meta.OrderId == old(meta.OrderId) && meta.Commits == old(meta.Commits) && meta.Orders == old(meta.Orders) && meta.Commit == old(meta.Commit)
+//@       && meta.Status == old(meta.Status) && meta.CreatedAt == old(meta.CreatedAt) && meta.Cid == old(meta.Cid)
+//@       && meta.ReadonlyDids == old(meta.ReadonlyDids) && meta.ReadwriteDids == old(meta.ReadwriteDids)
+//@   loop L1 invariant -1 <= rangeindex
+//@   loop L2 invariant -1 <= rangeindex
+//@   loop L3 invariant -1 <= rangeindex
+
+// RollbackMeta: after a cancelled or timed-out update the model returns to its last committed version, or disappears
+// together with its alias if it never had one.
+//@ func (Keeper) RollbackMeta(ctx, dataId)
+//@   requires has(Metadata, dataId) ==> Metadata[dataId].DataId == dataId
+//@   requires forall h int :: 0 <= h && h <= MaxUint64 && has(ExpiredData, h) ==> ExpiredData[h].Height == h
+//@   requires [C11.sched.unique] has(Metadata, dataId) ==> forall h int :: 0 <= h && h <= MaxUint64 && has(ExpiredData, h) && contains(ExpiredData[h].Data, dataId) ==> h == u64(Metadata[dataId].CreatedAt + Metadata[dataId].Duration)
+//@   requires [C11.sched.once] has(Metadata, dataId) && has(ExpiredData, u64(Metadata[dataId].CreatedAt + Metadata[dataId].Duration)) ==>
+//@       forall i int, j int :: 0 <= i && i < j && j < len(ExpiredData[u64(Metadata[dataId].CreatedAt + Metadata[dataId].Duration)].Data)
+//@         ==> !(ExpiredData[u64(Metadata[dataId].CreatedAt + Metadata[dataId].Duration)].Data[i] == dataId && ExpiredData[u64(Metadata[dataId].CreatedAt + Metadata[dataId].Duration)].Data[j] == dataId)
+//@   modifies Metadata[dataId], Model[sprintf("%s-%s-%s", Metadata[dataId].Owner, Metadata[dataId].Alias, Metadata[dataId].GroupId)], ExpiredData
+//@   ensures [C05.rollback.absent] !old(has(Metadata, dataId)) ==> !has(Metadata, dataId)
+//@   ensures [C05.rollback.restore.a] old(has(Metadata, dataId)) && len(old(Metadata[dataId].Commits)) > 0 && len(old(Metadata[dataId].Orders)) > 0 ==> has(Metadata, dataId) && Metadata[dataId].Status == MetaComplete
+//@   ensures [C05.rollback.restore.b] old(has(Metadata, dataId)) && len(old(Metadata[dataId].Commits)) > 0 && len(old(Metadata[dataId].Orders)) > 0 ==> Metadata[dataId].Commit == CommitFromVersion(old(Metadata[dataId].Commits)[len(old(Metadata[dataId].Commits)) - 1])
+//@   ensures [C05.rollback.restore.c] old(has(Metadata, dataId)) && len(old(Metadata[dataId].Commits)) > 0 && len(old(Metadata[dataId].Orders)) > 0 ==> Metadata[dataId].OrderId == old(Metadata[dataId].Orders)[len(old(Metadata[dataId].Orders)) - 1]
+//@   ensures [C05.rollback.restore.d] old(has(Metadata, dataId)) && len(old(Metadata[dataId].Commits)) > 0 && len(old(Metadata[dataId].Orders)) > 0 ==> Metadata[dataId].Commits == old(Metadata[dataId].Commits) && Metadata[dataId].Orders == old(Metadata[dataId].Orders)
+//@   ensures [C05.rollback.restore.e] old(has(Metadata, dataId)) && len(old(Metadata[dataId].Commits)) > 0 && len(old(Metadata[dataId].Orders)) > 0 ==> Metadata[dataId].Owner == old(Metadata[dataId].Owner) && Metadata[dataId].DataId == dataId && Metadata[dataId].ReadonlyDids == old(Metadata[dataId].ReadonlyDids) && Metadata[dataId].ReadwriteDids == old(Metadata[dataId].ReadwriteDids)
+//@   ensures [C05.rollback.remove] old(has(Metadata, dataId)) && len(old(Metadata[dataId].Commits)) == 0 ==> !has(Metadata, dataId)
+//@       && !has(Model, sprintf("%s-%s-%s", old(Metadata[dataId].Owner), old(Metadata[dataId].Alias), old(Metadata[dataId].GroupId)))
+//@   ensures [C05.rollback.unschedule] old(has(Metadata, dataId)) && len(old(Metadata[dataId].Commits)) == 0 ==>
+//@       forall h int :: 0 <= h && h <= MaxUint64 && has(ExpiredData, h) ==> !contains(ExpiredData[h].Data, dataId)
+
+// CancelOrder: full refund, rollback of the data model, removal of the order record
+//@ func (Keeper) CancelOrder(ctx, orderId) (err)
+//@   requires has(Order, orderId) && has(Metadata, Order[orderId].DataId) ==> Metadata[Order[orderId].DataId].DataId == Order[orderId].DataId
+//@   requires forall h int :: 0 <= h && h <= MaxUint64 && has(ExpiredData, h) ==> ExpiredData[h].Height == h
+//@   requires [C11.sched.unique] has(Order, orderId) && has(Metadata, Order[orderId].DataId) ==> forall h int :: 0 <= h && h <= MaxUint64 && has(ExpiredData, h) && contains(ExpiredData[h].Data, Order[orderId].DataId)
+//@         ==> h == u64(Metadata[Order[orderId].DataId].CreatedAt + Metadata[Order[orderId].DataId].Duration)
+//@   requires [C11.sched.once] has(Order, orderId) && has(Metadata, Order[orderId].DataId) && has(ExpiredData, u64(Metadata[Order[orderId].DataId].CreatedAt + Metadata[Order[orderId].DataId].Duration)) ==>
+//@       forall i int, j int :: 0 <= i && i < j && j < len(ExpiredData[u64(Metadata[Order[orderId].DataId].CreatedAt + Metadata[Order[orderId].DataId].Duration)].Data)
+//@         ==> !(ExpiredData[u64(Metadata[Order[orderId].DataId].CreatedAt + Metadata[Order[orderId].DataId].Duration)].Data[i] == Order[orderId].DataId && ExpiredData[u64(Metadata[Order[orderId].DataId].CreatedAt + Metadata[Order[orderId].DataId].Duration)].Data[j] == Order[orderId].DataId)
+//@   modifies Order[orderId], Metadata[Order[orderId].DataId], Model[sprintf("%s-%s-%s", Metadata[Order[orderId].DataId].Owner, Metadata[Order[orderId].DataId].Alias, Metadata[Order[orderId].DataId].GroupId)], ExpiredData, Bank
+//@   ensures [C05.cancel.order] err == nil ==> old(has(Order, orderId)) && !has(Order, orderId)
+//@   ensures [C05.cancel.refund] err == nil && addr(PaymentAddress[(old(Order[orderId].PaymentDid) != "" ? old(Order[orderId].PaymentDid) : old(Order[orderId].Owner))].Address) != moduleAddr("order") ==>
+//@       bal(addr(PaymentAddress[(old(Order[orderId].PaymentDid) != "" ? old(Order[orderId].PaymentDid) : old(Order[orderId].Owner))].Address), old(Order[orderId].Amount.Denom))
+//@         == oldbal(addr(PaymentAddress[(old(Order[orderId].PaymentDid) != "" ? old(Order[orderId].PaymentDid) : old(Order[orderId].Owner))].Address), old(Order[orderId].Amount.Denom)) + old(Order[orderId].Amount.Amount)
+//@       && bal(moduleAddr("order"), old(Order[orderId].Amount.Denom)) == oldbal(moduleAddr("order"), old(Order[orderId].Amount.Denom)) - old(Order[orderId].Amount.Amount)
+//@   ensures [C05.cancel.model] err == nil && old(has(Metadata, Order[orderId].DataId)) && len(old(Metadata[Order[orderId].DataId].Commits)) == 0 ==> !has(Metadata, old(Order[orderId].DataId))
+//@   ensures [C05.cancel.restore] err == nil && old(has(Metadata, Order[orderId].DataId)) && len(old(Metadata[Order[orderId].DataId].Commits)) > 0 && len(old(Metadata[Order[orderId].DataId].Orders)) > 0 ==>
+//@       has(Metadata, old(Order[orderId].DataId)) && Metadata[old(Order[orderId].DataId)].Status == MetaComplete
+//@       && Metadata[old(Order[orderId].DataId)].Commit == CommitFromVersion(old(Metadata[Order[orderId].DataId].Commits)[len(old(Metadata[Order[orderId].DataId].Commits)) - 1])
+//@       && Metadata[old(Order[orderId].DataId)].OrderId == old(Metadata[Order[orderId].DataId].Orders)[len(old(Metadata[Order[orderId].DataId].Orders)) - 1]
